@@ -42,7 +42,8 @@ type c19Case struct {
 	Uniform bool       `json:"uniform,omitempty"` // every transaction is the same full-table update: equal-length WALs
 	Remove  int        `json:"remove"`            // -1 = nothing removed, else index into the list of all segments
 	Target  int        `json:"target"`            // -1 = no timestamp, else selector into the candidate instants
-	WithLTX int        `json:"with_ltx"`          // 0 = legacy only; 1/2 = also a current-format replica, placed before / after / interleaved
+	WithLTX int        `json:"with_ltx"`          // 0 = legacy only; 1/2/3 = also a current-format replica, placed before / after / between the newest legacy snapshot and the legacy WAL segments that follow it
+	GenRev  bool       `json:"gen_rev,omitempty"` // generation IDs sort in the reverse of their age (IDs are random in real layouts)
 }
 
 func genC19(t *rapid.T) c19Case {
@@ -89,7 +90,8 @@ func genC19(t *rapid.T) c19Case {
 	if rapid.IntRange(0, 2).Draw(t, "withT") > 0 {
 		c.Target = rapid.IntRange(0, 255).Draw(t, "target")
 	}
-	c.WithLTX = rapid.SampledFrom([]int{0, 0, 0, 1, 2}).Draw(t, "withLTX")
+	c.WithLTX = rapid.SampledFrom([]int{0, 0, 0, 1, 2, 3}).Draw(t, "withLTX")
+	c.GenRev = rapid.Bool().Draw(t, "genRev")
 	return c
 }
 
@@ -142,6 +144,9 @@ func execC19(c c19Case) (res core.Result) {
 	walPath := w.DBPath + "-wal"
 	for gi, gen := range c.Gens {
 		gid := fmt.Sprintf("%016x", 0xa000+gi)
+		if c.GenRev {
+			gid = fmt.Sprintf("%016x", 0xf000-gi)
+		}
 		for ii, ix := range gen.Indices {
 			// index boundary: everything checkpointed, WAL truncated
 			w.AppStep(lsw.Op{K: "appckpt", M: "TRUNCATE"})
@@ -229,11 +234,25 @@ func execC19(c c19Case) (res core.Result) {
 		}
 		// re-time: mode 1 = all before the legacy files, mode 2 = all after
 		base := time.Date(2023, 4, 1, 0, 0, 0, 0, time.UTC)
+		step := 10 * time.Second
 		if c.WithLTX == 2 {
 			base = clock.Add(time.Hour)
 		}
+		if c.WithLTX == 3 {
+			// the newest current-format file is one second younger than the newest legacy snapshot: older than the
+			// legacy WAL segments written after that snapshot (if there are any)
+			var newestSnap time.Time
+			for _, sn := range snaps {
+				if sn.mtime.After(newestSnap) {
+					newestSnap = sn.mtime
+				}
+			}
+			n := len(lsw.ListLTX(ltxOnly))
+			step = 100 * time.Millisecond
+			base = newestSnap.Add(time.Second).Add(-time.Duration(n-1) * step)
+		}
 		for i, f := range lsw.ListLTX(ltxOnly) {
-			mt := base.Add(time.Duration(i*10) * time.Second)
+			mt := base.Add(time.Duration(i) * step)
 			_ = os.Chtimes(f.Path, mt, mt)
 			ltxTimes = append(ltxTimes, mt)
 		}
